@@ -98,6 +98,11 @@ func (w *hw) checkAssignment(what, kind, ch, assignee, remote string, mev bool, 
 	if mev {
 		w.rec.Count("assign_checked_mev", 1)
 	}
+	if !w.sampled["assign"] && mev && !strings.HasPrefix(what, "what-if") {
+		w.sampled["assign"] = true
+		w.rec.Sample(map[string]any{"kind": "assignment decided", "height": w.c.Height, "what": what, "chain": ch, "mev_required": mev, "assignee": assignee, "relayer_address": remote,
+			"eligible": keys(cands[0].eligible(ch, mev)), "tables": tablesBrief(cands[0])})
+	}
 	okElig, okAddr := false, false
 	for _, t := range cands {
 		if len(t.why(assignee, ch, mev)) == 0 {
@@ -329,6 +334,11 @@ func (w *hw) checkFees(t tables, q map[string][]qItem) {
 				continue
 			}
 			w.rec.Count("fee_checked", 1)
+			if !w.sampled["fee"] && discr {
+				w.sampled["fee"] = true
+				w.rec.Sample(map[string]any{"kind": "fees decided", "height": w.c.Height, "chain": ch, "message": it, "multiplier": mult, "community_rate": t.CF, "security_rate": t.SF,
+					"reference": []string{want[0].String(), want[1].String(), want[2].String()}})
+			}
 			if discr {
 				w.rec.Count("fee_ceil_discriminating", 1)
 			}
@@ -459,6 +469,20 @@ func (w *hw) checkRelay(ctx sdk.Context, q map[string][]qItem) {
 		}
 		if len(items) >= 2 {
 			w.rec.Distinct(abstractQueue(ch, items, w.vidx))
+		}
+		if !w.sampled["relay"] && len(items) >= 4 {
+			hasSender := false
+			for _, v := range verdict {
+				hasSender = hasSender || v == "sender"
+			}
+			if hasSender {
+				w.sampled["relay"] = true
+				offers := map[string][]uint64{}
+				for _, val := range w.uni {
+					offers[val] = refRelay(items, verdict, val, false)
+				}
+				w.rec.Sample(map[string]any{"kind": "relay offer decided", "height": c.Height, "chain": ch, "queue": items, "verdict_per_message": verdict, "offered_per_validator": offers})
+			}
 		}
 		for _, val := range askers {
 			va, err := sdk.ValAddressFromBech32(val)
